@@ -835,6 +835,21 @@ func (c *Ctx) typeTables() {
 			c.R.Check(okSet, ruleT1, "Type.Valid:range", c.P.Pos(fn.Pos()), "valid exactly for 1..14", fmt.Sprintf("Type.Valid is true for %v, MQTT 3.1.1 defines the packet types 1..14", set.list()))
 		}
 	}
+	// ConnackCode.Valid: exactly the six return codes of MQTT 3.1.1 table 3.1
+	if fn := c.P.Func("message", "ConnackCode", "Valid"); fn != nil && len(fn.Params) > 0 {
+		set, understood := boolResultSet(fn, fn.Params[0])
+		okSet := true
+		for t := 0; t < 256; t++ {
+			if set[t] != (t <= 5) {
+				okSet = false
+			}
+		}
+		if !understood {
+			c.R.Unknown(ruleT1, "ConnackCode.Valid:range", c.P.Pos(fn.Pos()), "the shape of ConnackCode.Valid is outside the set-based evaluation (comparisons of the code with constants, negation, and/or)")
+		} else {
+			c.R.Check(okSet, ruleT1, "ConnackCode.Valid:range", c.P.Pos(fn.Pos()), "valid exactly for 0..5", fmt.Sprintf("ConnackCode.Valid is true for %v, MQTT 3.1.1 defines the return codes 0..5: a CONNACK with a defined code is rejected by the decoder (the client reports a decode error instead of the server's refusal) or an undefined one is let through", set.list()))
+		}
+	}
 	// thresholds of header.msglen
 	if fn := c.P.Func("message", "header", "msglen"); fn != nil {
 		th := map[int64]bool{}
